@@ -833,6 +833,9 @@ func resolveOpTypeValue(p *Prog, ops *OpTable, v ssa.Value, fvEnv map[*ssa.FreeV
 		if o, ok := params[x]; ok {
 			return o, ""
 		}
+		if b, ok := curCallBind[x]; ok {
+			return resolveOpTypeValue(p, ops, b.val, b.fvEnv, params, seen)
+		}
 		if v, ok := x.Object().(*types.Var); ok && curFactoryEnv != nil {
 			if a := curFactoryEnv[v]; a != nil {
 				return absToOps(ops, a)
@@ -968,7 +971,18 @@ func opTypesOfOperation(p *Prog, ops *OpTable, fn *ssa.Function, v ssa.Value, fv
 				return nil, nil, "Operation comes from an unresolvable call " + call.String()
 			}
 			if !stored {
-				// the callee's own allocation decides
+				// the callee's own allocation decides; its parameters stand for the arguments of this call
+				saved := curCallBind
+				curCallBind = map[*ssa.Parameter]callBinding{}
+				for k, b := range saved {
+					curCallBind[k] = b
+				}
+				for i, q := range callee.Params {
+					if i < len(call.Call.Args) {
+						curCallBind[q] = callBinding{call.Call.Args[i], fvEnv}
+					}
+				}
+				defer func() { curCallBind = saved }()
 				var o2 []*OpType
 				for _, b := range callee.Blocks {
 					for _, ins := range b.Instrs {
@@ -1020,9 +1034,21 @@ func boundValue(fn *ssa.Function, fv *ssa.FreeVar) ssa.Value {
 	return nil
 }
 
+// callBinding: while the body of a helper that builds an Operation is examined,
+// what the call under examination passes for each of its parameters.
+type callBinding struct {
+	val   ssa.Value
+	fvEnv map[*ssa.FreeVar]*absVal
+}
+
+var curCallBind map[*ssa.Parameter]callBinding
+
 func prefTypeOfValue(v ssa.Value, fvEnv map[*ssa.FreeVar]*absVal) string {
 	switch x := v.(type) {
 	case *ssa.Parameter:
+		if b, ok := curCallBind[x]; ok {
+			return prefTypeOfValue(b.val, b.fvEnv)
+		}
 		if vv, ok := x.Object().(*types.Var); ok && curFactoryEnv != nil {
 			if a := curFactoryEnv[vv]; a != nil {
 				switch a.kind {
